@@ -81,6 +81,20 @@ func waitScenario(w *bufio.Writer, name string, timeoutMs uint64) {
 			defer func() { mu.Lock(); cond.Broadcast(); mu.Unlock() }()
 			start = time.Now()
 			machine.WaitTimeout(cond, timeoutMs)
+		case "contending-signal", "contending-broadcast": // the signaller is already fighting for the lock when the wait begins
+			go func() {
+				for !mu.TryLock() {
+				}
+				if name == "contending-signal" {
+					cond.Signal()
+				} else {
+					cond.Broadcast()
+				}
+				mu.Unlock()
+			}()
+			time.Sleep(2 * time.Millisecond) // the signaller is spinning by now
+			start = time.Now()
+			machine.WaitTimeout(cond, timeoutMs)
 		case "stale-helper": // a timed-out wait, then a late signal, then a second timed-out wait
 			machine.WaitTimeout(cond, timeoutMs)
 			mu.Unlock()
@@ -191,6 +205,10 @@ func main() {
 	}
 	for _, t := range []uint64{0, 5, 20} {
 		waitScenario(w, "stale-helper", t)
+	}
+	for i := 0; i < 12; i++ {
+		waitScenario(w, "contending-signal", 1500)
+		waitScenario(w, "contending-broadcast", 1500)
 	}
 	for _, t := range []uint64{0, 10, 50} {
 		waitScenario(w, "two-waiters", t)
